@@ -6,6 +6,13 @@ VERIF = os.path.dirname(os.path.dirname(os.path.abspath(__file__)))
 
 # id -> (category, technique, text, note)
 CLAIMS = {
+    'C11': ('other',
+            'static analysis: partial evaluation of the lifter (dict_to_Expr + semantic function) per decoder form into IR templates, then width/kind/single-assignment typing of each template',
+            'For every live decoder variant x operand form x operand size (about 2200 instantiations, 11800 in thorough) the IR template the lifter emits is derived from the '
+            'source without running it, and type-checked: no raise/unbound name/arity error on the path, list of assignments with register/memory destinations, determinate '
+            'and agreeing widths (operands of + - * & | ^ ==, slices, concatenation tiling, destination vs source with the 0/1 flag exception), no location written twice.',
+            'Not decided: aliasing of distinct symbolic addresses. Trusted: the form model of _dis operand dictionaries (validated at authoring time: 2949 templates identical to '
+            'the real lifter). 189 genuine ill-typed/unliftable forms are listed in known_findings.json (mostly 16-bit-mode widths and x87 stack helpers).'),
     'C07': ('other',
             'static analysis: call-closure effect check of the evaluator read phase, def-use chain of the values written to the pool, expression-vs-integer comparison typing, early-return flag audit',
             'Decides that every source is evaluated in the pre-state (nothing reachable from get_instr_mod writes self.pool; eval_instr calls it once before its first '
